@@ -15,6 +15,7 @@ from __future__ import annotations
 import ast
 import math
 import random
+import time
 from fractions import Fraction
 
 from .. import common as cm
@@ -58,6 +59,8 @@ THEOREMS = [
     'C20.linspace_length', 'C20.linspace_first', 'C20.linspace_last', 'C20.linspace_step',
     'C20.respaceGo_length', 'C20.respaceGo_pinned', 'C20.respaceTargets_length', 'C20.respaceTargets_pinned',
     'C20.splineRespace_keeps_pinned', 'C20.stringStep_spline_fixed_pinned_critical',
+    # climbing images named from the end (negative indices); the textbook form of the Runge-Kutta step is the same function
+    'C20.pyIndex_nonneg', 'C20.pyIndex_neg_equiv', 'C20.pyIndex_out_of_range', 'C20.climbImages_neg_equiv', 'C20.rk4_textbook_form',
 ]
 PARTIAL = {
     'relaxation_converges_to_saddle': 'convergence of the iterated float/spline relaxation is not a '
@@ -749,7 +752,7 @@ class Runner:
             pos = op.get('call') == 'pos'
             spied = []
             if kind == 'step':
-                climb = _climb_form(op.get('climb'), op.get('climb_as'))
+                climb = _climb_form(op.get('climb'), op.get('climb_as'), op.get('climb_neg'), len(p.coord))
                 # the arc coordinates step hands to interpolate_path (its `newα`) together with those of the integrated images
                 cls = type(p)
                 orig = cls.interpolate_path
@@ -824,9 +827,15 @@ def _h_form(h, form):
     return h
 
 
-def _climb_form(climb, form):
-    """the climbing images as int, numpy integer, list, tuple, integer array (also empty)."""
+def _climb_form(climb, form, neg=None, n=None):
+    """the climbing images as int, numpy integer, list, tuple, integer array (also empty); `neg`: every index (True) or the
+    first one of several ('first') given by its NEGATIVE equivalent i - n, counted from the end of the n images."""
     np = _np()
+    if climb is not None and neg and n:
+        if isinstance(climb, int):
+            climb = climb - n
+        else:
+            climb = [(i - n) if (neg is True or k == 0) else i for k, i in enumerate(climb)]
     if climb is None or form is None:
         return climb
     lst = [climb] if isinstance(climb, int) else list(climb)
@@ -952,6 +961,7 @@ def _gen_sequence(rng, nops, tier_big=False):
                 climb = []
             op = {'op': 'step', 'hrel': rng.choice([0.5, 0.25, 0.125, 0.3]), 'climb': climb,
                   'climb_as': rng.choice([None, None, 'int', 'npint', 'tuple', 'array', 'array32']),
+                  'climb_neg': rng.choice([None, None, True, True, 'first']),
                   'h_as': rng.choice([None, None, 'np64', 'np32', '0d']), 'call': rng.choice(['kw', 'kw', 'pos']),
                   'adopt': rng.random() < 0.5, 'hdefault': rng.random() < 0.15}
             if rng.random() < 0.08:
@@ -1051,7 +1061,7 @@ class OracleModel:
         n = sh.n
         return [Fraction(1, 20) * min(Fraction(1, 5), Fraction(1, n)), max(Fraction(1, n ** 4), Fraction(1, 10 ** 10))]
 
-    def step(self, idx, sh, h, climb):
+    def step(self, idx, sh, h, climb, neg=None):
         """rows the step must leave where the integrator put them: {row index: exact row}."""
         if sh.n < 2:
             return ('raise',)
@@ -1165,8 +1175,11 @@ class LeanModel:
     def defaults(self, idx, sh):
         return self._sec(self.d.ask(f'pdef {sh.n}'))
 
-    def step(self, idx, sh, h, climb):
-        out = self.d.ask(f'pstep {self.map[idx]} {cm.fr(h)} ' + ' '.join(str(i) for i in climb))
+    def step(self, idx, sh, h, climb, neg=None):
+        # the model object gets the indices the way the implementation got them: counted from the end (i - N) where the case says so
+        # (`climbImages?` resolves them; theorem `climbImages_neg_equiv`)
+        wire = [(i - sh.n) if (neg is True or (neg == 'first' and k == 0)) else i for k, i in enumerate(climb)]
+        out = self.d.ask(f'pstep {self.map[idx]} {cm.fr(h)} ' + ' '.join(str(i) for i in wire))
         if out.startswith('err:'):
             return ('raise',)
         head, body = out.split(';')
@@ -1450,7 +1463,7 @@ def _brief(op):
         return f"bad {op['attr']}"
     if k == 'step':
         return (f"step(h={'default ' if op.get('hdefault') else ''}{op['h']}{'/' + op['h_as'] if op.get('h_as') else ''}, climb={op.get('climb')}"
-                f"{'/' + op['climb_as'] if op.get('climb_as') and op.get('climb') is not None else ''}{', positional' if op.get('call') == 'pos' else ''}"
+                f"{'/' + op['climb_as'] if op.get('climb_as') and op.get('climb') is not None else ''}{' given as negative ind' + ('ices i - N' if op['climb_neg'] is True else 'ex i - N (first)') if op.get('climb_neg') and op.get('climb') not in (None, []) else ''}{', positional' if op.get('call') == 'pos' else ''}"
                 f"{', adopt' if op.get('adopt') else ''})")
     if k == 'relax':
         return (f"relax({op['r']},{op['c']},h={'default ' if op.get('hdefault') else ''}{op['h']},tol={op.get('tol', 0.0)}" + (f",climbpoints={op['cp']}" if op.get('cp') is not None else '')
@@ -1650,7 +1663,7 @@ def _check_step(ctx, report, model, model_kind, runner, idx, before, op, res, ra
     if kind == 'step':
         climb = op.get('climb')
         climb = [] if climb is None else ([climb] if isinstance(climb, int) else list(climb))
-        want = model.step(idx, before, op['h'], climb)
+        want = model.step(idx, before, op['h'], climb, op.get('climb_neg'))
         nsteps = 1
     else:
         nsteps = op['r'] + op['c']
@@ -1827,6 +1840,31 @@ def _relax_by_steps(runner, before, op, new):
             f'from the energies {E} after the relaxation steps) gives {want.tolist()}')
 
 
+_VIEWS = ['ellipsis', 'column', 'transpose', 'moveaxis', 'swapaxes', 'take-slice']
+
+
+def _view_fxn(kind, k):
+    """E(v) = v_k returned as a VIEW of v (no copy): the ways of picking one coordinate of every point."""
+    np = _np()
+
+    def fxn(v):
+        v = np.asarray(v)
+        if v.ndim == 1:
+            return v[k]
+        if kind == 'column' and v.ndim == 2:
+            return v[:, k]
+        if kind == 'transpose' and v.ndim == 2:
+            return v.T[k]
+        if kind == 'moveaxis':
+            return np.moveaxis(v, -1, 0)[k]
+        if kind == 'swapaxes' and v.ndim == 2:
+            return np.swapaxes(v, 0, 1)[k]
+        if kind == 'take-slice':
+            return v[..., k:k + 1].reshape(v.shape[:-1])
+        return v[..., k]
+    return fxn
+
+
 _LEADING = [(), (1,), (3,), (5,), (2, 3), (3, 2), (2, 2), (3, 3), (4, 4), (1, 4), (4, 1), (2, 5), (2, 3, 2), (2, 2, 2),
             (3, 3, 3), (2, 3, 4), (1, 2, 1), (2, 1, 3, 2)]
 
@@ -1845,8 +1883,14 @@ def _gen_cd_array(rng, tier_big=False):
     bits = 0 if container.startswith('int') else 3
     pts = [[cm.dyadic(rng, -span, span, bits) for _ in range(d)] for _ in range(npts)]
     shift = rng.choice([None, 2.0 ** -3, 2.0 ** -6, 2.0 ** -10, 1e-3, 2.0 ** -2, 0.01, -2.0 ** -5, -1e-3])
-    return {'op': 'cd-array', 'poly': poly.spec(), 'lead': list(lead), 'pts': pts, 'shift': shift, 'container': container,
+    case = {'op': 'cd-array', 'poly': poly.spec(), 'lead': list(lead), 'pts': pts, 'shift': shift, 'container': container,
             'returns': rng.choice(['numpy', 'numpy', 'float', '0d'])}
+    if rng.random() < 0.2:
+        # a tilted plane E = v_k written the way one writes it: the value IS a view of the argument (v[..., k], v[:, k],
+        # v.T[k], np.moveaxis(v, -1, 0)[k]); its gradient is the k-th unit vector, whatever the step
+        k = rng.randrange(d)
+        case.update(poly=Poly([1.0 if i == k else 0.0 for i in range(d)], [0.0] * d, [0.0] * d, 0.0).spec(), view=rng.choice(_VIEWS), k=k)
+    return case
 
 
 def _cd_array_call(case):
@@ -1877,8 +1921,14 @@ def _cd_array_call(case):
     # the energy function may return a Python float or a 0-d array for a single point
     ret = case.get('returns', 'numpy')
 
+    vfx = _view_fxn(case['view'], case['k']) if case.get('view') else None
+
     def fxn(v):
-        r = poly(v)
+        if vfx is not None:
+            poly.ncalls += 1
+            r = vfx(v)
+        else:
+            r = poly(v)
         if np.ndim(r) == 0 and ret != 'numpy':
             return float(r) if ret == 'float' else np.asarray(r)
         return r
@@ -1957,6 +2007,15 @@ RULE = ('random dyadic matrices A (dim 1-6), vectors y, steps h for euler/rungek
         'at 2^k up to |k| = 1000; central_difference points in the same containers, energy functions returning Python floats / '
         '0-d arrays for a single point; tabulated energies with neighbours within 2^-20…2^-50, with inf / nan entries (oracle '
         'only), in units of 2^±1000; paths in units of length up to 2^±300. '
+        'Round 4: one gradient case in five is a coordinate projection f(v) = v_k returned as a VIEW of its argument (v[..., k], '
+        'v[:, k], v.T[k], moveaxis, take-slice); every (A, y, h) also with the rate function np.dot(A, y, out=buf); return buf, and '
+        'arrays of points with rate values handed back as one reused buffer / a view into one work array / read-only arrays; '
+        'climbing images of a step named by negative indices i - N (all, or the first of several) in every container form, for the '
+        'implementation and for the Lean object (climbImages?); a relaxation driven from outside through step(h, climbindex=top - N); '
+        'counts and thresholds: strings of N in {2..7, 15..17, 99..101, 255..257, 315..318, 511, 513, 1000, 1001, 1023..1025, 2047, '
+        '2049, 4097} images (defaults, arc coordinates, one step of a straight string in a valley with / without climbing images, '
+        'interpolation on a quarter circle) and N in {1023..1025, 2047..2049, 4095, 4097, 8193, 65537} points at once through '
+        'central_difference / euler / rungekutta. '
         'distinct = distinct canonical input line / (state, operation); non-trivial = A, y non-zero and h != 0, at least '
         'two images')
 ASSUMPTIONS = ['IEEE double rounding of the implementation is bounded by rtol 1e-9 on the dyadic integrator inputs (|.|<=8, '
@@ -2007,7 +2066,8 @@ def _gen_integ_array(rng):
             'gain': rng.choice([0.5, 2.0, -1.0, 0.25, 1.5]) if mode in ('kw-gain', 'kw-both') else 1.0,
             'exp': rng.choice([0, 0, 0] + _SCALE_EXPS + _FAR_EXPS), 'vector': nrows == 1 and rng.random() < 0.5,
             'container': rng.choice(['array', 'array', 'list', 'tuple', 'float32', 'intarray', 'fortran', 'strided', 'readonly']),
-            'h_as': rng.choice([None, None, 'np64', 'np32', '0d'])}
+            'h_as': rng.choice([None, None, 'np64', 'np32', '0d']),
+            'rate_returns': rng.choice(['fresh', 'fresh', 'buffer', 'buffer', 'buffer-view', 'readonly'])}
 
 
 def _integ_array_call(case, name):
@@ -2034,9 +2094,25 @@ def _integ_array_call(case, name):
 
     def rate_both(C, gain=0.0, mats=Z):
         return gain * apply(mats, C)
-    rate, kw = {'plain': (rate_plain, {}), 'kw-mats': (rate_mats, {'mats': As}), 'kw-gain': (rate_gain, {'gain': case['gain']}),
-                'kw-both': (rate_both, {'gain': case['gain'], 'mats': As})}[case['mode']]
+    rate0, kw = {'plain': (rate_plain, {}), 'kw-mats': (rate_mats, {'mats': As}), 'kw-gain': (rate_gain, {'gain': case['gain']}),
+                 'kw-both': (rate_both, {'gain': case['gain'], 'mats': As})}[case['mode']]
     base = (Y[0] if vec else Y).copy()
+    # how the rate function hands its value back: a fresh array | the SAME preallocated work array on every call (the
+    # `out=` idiom: np.dot(A, y, out=self.buf); return self.buf) | a view into one larger work array | a read-only array
+    rr = case.get('rate_returns', 'fresh')
+    work = np.full((2,) + base.shape, np.nan)
+
+    def rate(C, **k_):
+        r = rate0(C, **k_)
+        if rr == 'fresh' or np.shape(r) != base.shape:
+            return r
+        if rr == 'readonly':
+            r = np.array(r, dtype=float)
+            r.setflags(write=False)
+            return r
+        out = work[1] if rr == 'buffer-view' else work[0]
+        out[...] = r
+        return out
     cont = case.get('container', 'array')
     if cont == 'intarray' and not (case['exp'] == 0 and bool((base == np.rint(base)).all())):
         cont = 'array'
@@ -2100,7 +2176,7 @@ def _describe_integ_array(case, name):
     how = {'plain': 'the matrices bound in the rate function', 'kw-mats': 'the matrices handed as keyword argument mats= of the step',
            'kw-gain': f'gain={case["gain"]} handed as keyword argument of the step', 'kw-both': f'gain={case["gain"]} and mats= handed as '
            'keyword arguments of the step'}[case['mode']]
-    return (f'{name}(rate, Y, h={case["h"]}{"/" + case["h_as"] if case.get("h_as") else ""}, …) on '
+    return (f'{name}(rate, Y, h={case["h"]}{"/" + case["h_as"] if case.get("h_as") else ""}, …) ' + ({'buffer': 'with a rate function that returns ONE preallocated work array on every call, ', 'buffer-view': 'with a rate function that returns a view into one work array on every call, ', 'readonly': 'with a rate function that returns read-only arrays, '}.get(case.get('rate_returns'), '')) + 'on '
             f'{"a vector" if case.get("vector") else f"an array of {len(case["Y"])} points"} ({case.get("container", "array")}) in dimension '
             f'{len(case["Y"][0])} at scale 2^{case["exp"]}, row-wise linear rate y_n\' = g A_n y_n with {how}')
 
@@ -2437,6 +2513,27 @@ def search(ctx, broken):
                             f'got {list(map(float, impl))}, expected {[float(w) for w in want]}',
                             {'op': name, 'A': A, 'y': y, 'h': h, 'impl': list(map(float, impl)),
                              'expected': [str(w) for w in want]})
+                continue
+            # the same law written with the `out=` idiom: the rate function fills ONE preallocated array and returns it on
+            # every call (every stage value must have been used -- or copied -- before the next evaluation)
+            buf = np.empty(dim)
+
+            def rate_buf(c, buf=buf):
+                np.dot(An, c, out=buf)
+                return buf
+            ctx.stats.case('oracle:' + name + ':buffer-rate', (A, y, h))
+            try:
+                impl_b = np.array(f(rate_buf, yn.copy(), h), dtype=float)
+            except Exception as e:  # noqa
+                ctx.violate(f'{name}:raises', f'{name}(rate, y={y}, h={h}) with rate = lambda y: (np.dot(A, y, out=buf), buf)[1] '
+                            f'raised {type(e).__name__}: {e}', {'op': name, 'A': A, 'y': y, 'h': h, 'rate': 'buffer'})
+                continue
+            if impl_b.shape != yn.shape or not cm.allclose(impl_b, want, rtol=1e-9, atol=1e-11):
+                ctx.violate(f'{name}:taylor', f'{name} on y\'=Ay, A = {A}, y = {y}, h = {h}, with the rate function written as '
+                            f'np.dot(A, y, out=buf); return buf (one preallocated array returned on every call) is not the degree-{deg} '
+                            f'Taylor polynomial of exp(hA) y: got {impl_b.tolist()}, expected {[float(w) for w in want]}; with the rate '
+                            f'function lambda y: A @ y it returns {list(map(float, impl))}',
+                            {'op': name, 'A': A, 'y': y, 'h': h, 'rate': 'buffer', 'impl': impl_b.tolist(), 'expected': [str(w) for w in want]})
     # order of the one-step error: err(h)/err(h/2) -> 2^(p+1), measured with the state at every scale
     for name, f, p in (('euler', euler, 1), ('rungekutta', rungekutta, 4)):
         for a in (1.0, -0.75, 0.5):
@@ -2470,6 +2567,9 @@ def search(ctx, broken):
             ctx.violate('central_difference:order', f'gradient error {e1} at shift 1e-2, {e2} at 5e-3 (ratio {e1 / max(e2, 1e-300):.2f}, expected ~4)',
                         {'op': 'cd-order', 'x': x.tolist(), 'w': w.tolist(), 'e1': float(e1), 'e2': float(e2)})
     _search_cd_arrays(ctx, rng, broken)
+    t_ = time.time()
+    _search_counts(ctx, rng, broken)
+    ctx.extra['t_search_counts_s'] = round(time.time() - t_, 2)
     _search_units(ctx, rng, broken)
     _search_refusals(ctx, rng)
     _search_paths(ctx, rng, broken)
@@ -2723,7 +2823,7 @@ def _search_cd_arrays(ctx, rng, broken):
         if why is not None:
             shape = tuple(case['lead']) + (poly.dim,)
             X = np.array(case['pts'], dtype=float).reshape(shape)
-            ctx.violate(f'central_difference:array{len(shape)}d', f'central_difference(f, X, shift={case["shift"]}) for the cubic f '
+            ctx.violate(f'central_difference:array{len(shape)}d', f'central_difference(f, X, shift={case["shift"]}) for ' + (f'the plane f(v) = v_{case["k"]} returning a VIEW of its argument ({case["view"]}) ' if case.get('view') else 'the cubic f ') +
                         f'{case["poly"]} and X ({case["container"]}) of shape {shape} = {X.tolist()}: {why}',
                         dict(case, impl=None if isinstance(got, tuple) else got.tolist()))
     for it in range(ctx.n(60, 600)):
@@ -2751,6 +2851,162 @@ def _search_cd_arrays(ctx, rng, broken):
             ctx.violate(f'central_difference:array{len(lead) + 1}d', f'sum(sin(w x)) + exp(0.3 sum x), w={w.tolist()}, X of shape '
                         f'{X.shape} = {X.tolist()}: gradient error {e1:.3g} at shift 1e-2, {e2:.3g} at 5e-3 (ratio '
                         f'{e1 / max(e2, 1e-300):.2f}, expected ~4); entry {tuple(int(i) for i in k)} is {g1[k]!r}, analytic {exact[k]!r}', info)
+
+
+_COUNT_IMAGES = [2, 3, 4, 5, 6, 7, 15, 16, 17, 99, 100, 101, 255, 256, 257, 315, 316, 317, 318, 511, 513, 1000, 1001, 1023, 1024, 1025,
+                 2047, 2049, 4097]
+_COUNT_POINTS = [1023, 1024, 1025, 2047, 2048, 2049, 4095, 4097, 8193, 65537]
+
+
+def _search_counts(ctx, rng, broken):
+    """counts and thresholds: strings of N images and point arrays of N rows, N around the powers of two, k * block + 1, the
+    image counts at which the documented defaults switch (5 | 6 images: 0.05 min(0.2, 1/N); 316 | 317: max(N^-4, 1e-10)),
+    the smallest strings (2, 3 images).  Oracles in closed form:
+      * defaults from exact rationals;
+      * a straight string y = c in the valley E = k y^2, equally spaced with a dyadic spacing: one step multiplies y by the
+        Taylor polynomial of exp(-2 k h) (degree 1 | 4), leaves x alone and -- every segment being equally spaced already,
+        with or without climbing images, named by positive or NEGATIVE indices -- re-spaces nothing;
+      * a string of N images on a quarter circle: arc coordinates i * chord, interpolation half-way between the images on
+        the circle to O(chord^4);
+      * the gradient / one integrator step on N points at once, row by row (exact cubic oracle / Taylor polynomial)."""
+    np = _np()
+    import atomman.mep as mep
+    th = bool(broken or ctx.thorough)
+    sizes = list(_COUNT_IMAGES) if th else sorted(set([2, 3, 5, 6, 316, 317] + rng.sample(_COUNT_IMAGES, 5) + [rng.choice([1025, 2049, 4097])]))
+    for N in sizes:
+        info = {'op': 'counts', 'kind': 'string', 'N': N}
+        ctx.stats.case('oracle:counts:string', N, sample=info)
+        kk = rng.choice([0.5, 1.0, 2.0])
+        c0 = rng.choice([0.25, -0.5, 0.125])
+        dx = 2.0 ** -rng.choice([3, 5, 8])
+        coord = np.array([[i * dx - 1.0, c0] for i in range(N)])
+
+        def energy(p, kk=kk):
+            p = np.asarray(p)
+            return kk * p[..., 1] ** 2
+
+        def grad(fxn, p, kk=kk):
+            p = np.asarray(p)
+            return np.stack([np.zeros(p.shape[:-1]), 2 * kk * p[..., 1]], axis=-1)
+        for gname in ('analytic', 'central difference'):
+            integ = rng.choice(['euler', 'rk'])
+            try:
+                path = mep.create_path(coord.copy(), energy, integratorfxn=integ, **({} if gname != 'analytic' else {'gradientfxn': grad, 'gradientkwargs': {}}))
+                dt, tol = float(path.default_timestep), float(path.default_tolerance)
+                wdt = float(Fraction(1, 20) * min(Fraction(1, 5), Fraction(1, N)))
+                wtol = max(float(Fraction(1, N ** 4)), 1e-10)
+                if abs(dt - wdt) > 1e-15 * wdt or abs(tol - wtol) > 1e-14 * wtol:
+                    ctx.violate('path:defaults', f'a string of N = {N} images has default_timestep {dt!r} and default_tolerance {tol!r}; documented '
+                                f'0.05 min(0.2, 1/N) = {wdt!r} and max(N^-4, 1e-10) = {wtol!r}', info)
+                arc = np.asarray(path.arccoord, dtype=float)
+                if arc.shape != (N,) or np.abs(arc - np.arange(N) * dx).max() > 1e-12 * N * dx:
+                    ctx.violate('path:arccoord', f'arc coordinates of {N} images spaced by {dx} on a straight line differ from i * {dx} by '
+                                f'{np.abs(arc - np.arange(N) * dx).max() if arc.shape == (N,) else arc.shape!r}', info)
+                h = rng.choice([2.0 ** -4, 2.0 ** -6])
+                z = -2 * kk * h
+                pol = 1 + z if integ == 'euler' else 1 + z + z * z / 2 + z ** 3 / 6 + z ** 4 / 24
+                want = coord.copy()
+                want[:, 1] *= pol
+                climbs = [None]
+                if N >= 3:
+                    m = rng.randrange(1, N - 1)
+                    climbs += [m - N, [m - N], np.array([m - N]), m]
+                    if N >= 5:
+                        m2 = rng.randrange(1, N - 1)
+                        if m2 != m:
+                            climbs.append(sorted([m, m2]))
+                            climbs.append([t - N for t in sorted([m, m2])])
+                for ci in ([None] + rng.sample(climbs[1:], min(2, len(climbs) - 1)) if N > 300 else climbs):
+                    new = path.step(timestep=h, **({} if ci is None else {'climbindex': ci}))
+                    got = np.asarray(new.coord, dtype=float)
+                    atol = (1e-11 if gname == 'analytic' else 1e-8) * (1 + N * dx)
+                    if got.shape != want.shape or not np.allclose(got, want, rtol=0, atol=atol):
+                        k_ = None if got.shape != want.shape else np.unravel_index(np.abs(got - want).argmax(), want.shape)
+                        ctx.violate('step:counts', f'one {integ} step (h = {h}, {gname} gradient, climbindex = {ci!r}) of the straight string of N = {N} '
+                                    f'images x_i = {dx} i - 1, y = {c0} in the valley E = {kk} y^2: ' +
+                                    (f'shape {got.shape}' if k_ is None else f'image {int(k_[0])} is {got[k_[0]].tolist()}, expected {want[k_[0]].tolist()} '
+                                     f'(x unchanged, y times the degree-{1 if integ == "euler" else 4} Taylor polynomial of exp(-2 k h); every '
+                                     f'segment is equally spaced already)'), dict(info, integ=integ, gradient=gname, h=h, climbindex=repr(ci), k=kk, c=c0, dx=dx))
+                        break
+                    if not np.array_equal(path.coord, coord):
+                        ctx.violate('step:mutates-self', f'step changed the coordinates of the {N}-image path it was called on', info)
+                        break
+            except Exception as e:  # noqa
+                ctx.violate('counts:raises', f'string of N = {N} images ({gname} gradient, {integ}): {type(e).__name__}: {e}', info)
+        if N >= 4:
+            # quarter circle of radius R
+            R = rng.choice([1.0, 3.0, 0.25])
+            th_ = np.linspace(0, math.pi / 2, N)
+            circ = R * np.stack([np.cos(th_), np.sin(th_)], axis=-1)
+            try:
+                path = mep.create_path(circ.copy(), energy)
+                arc = np.asarray(path.arccoord, dtype=float)
+                chord = 2 * R * math.sin(math.pi / 4 / (N - 1))
+                if arc.shape != (N,) or np.abs(arc - np.arange(N) * chord).max() > 1e-11 * R * max(1.0, N / 100):
+                    ctx.violate('path:arccoord', f'arc coordinates of {N} images on a quarter circle of radius {R} differ from i * chord by '
+                                f'{np.abs(arc - np.arange(N) * chord).max() if arc.shape == (N,) else arc.shape!r}', info)
+                else:
+                    mid = (arc[:-1] + arc[1:]) / 2
+                    q = np.asarray(path.interpolate_path(mid).coord, dtype=float)
+                    tm = (th_[:-1] + th_[1:]) / 2
+                    wq = R * np.stack([np.cos(tm), np.sin(tm)], axis=-1)
+                    hh = math.pi / 2 / (N - 1)
+                    # interior spans: the spline error of a smooth curve is <= 5/384 h^4 |4th derivative| (= R); the two end spans
+                    # carry the not-a-knot end condition (same order, larger constant)
+                    err = np.abs(q - wq).max(axis=1) if q.shape == wq.shape else None
+                    bound = R * hh ** 4 + 1e-12 * R
+                    if err is None or (err[2:-2] > bound).any() or (err > 40 * bound).any():
+                        k_ = None if err is None else int(np.argmax(err))
+                        ctx.violate('interpolate_path:counts', f'interpolate_path half-way between the {N} images of a quarter circle of radius {R}: ' +
+                                    (f'shape {q.shape}' if err is None else f'point {k_} is {q[k_].tolist()}, on the circle {wq[k_].tolist()} '
+                                     f'(off by {err[k_]:.3g}; a cubic spline is within {bound:.3g})'), dict(info, R=R))
+            except Exception as e:  # noqa
+                ctx.violate('counts:raises', f'quarter-circle string of N = {N} images: {type(e).__name__}: {e}', info)
+    # N points at once: gradient and one integrator step, row by row
+    for n in (list(_COUNT_POINTS) if th else rng.sample(_COUNT_POINTS[:-2], 2) + [rng.choice(_COUNT_POINTS[-4:])]):
+        d = rng.choice([1, 2, 3])
+        lead = rng.choice([(n,), (n,), (3, n), (n, 2)]) if n <= 4097 else (n,)
+        npts = int(np.prod(lead))
+        poly = _gen_poly(rng, d)
+        base = [[cm.dyadic(rng, -2, 2, 3) for _ in range(d)] for _ in range(97)]
+        case = {'op': 'cd-array', 'poly': poly.spec(), 'lead': list(lead), 'pts': [[v + (i // 97) % 3 for v in base[i % 97]] for i in range(npts)],
+                'shift': rng.choice([None, 2.0 ** -6, 2.0 ** -10]), 'container': rng.choice(['array', 'stridedarray', 'list']), 'returns': 'numpy'}
+        if rng.random() < 0.4:
+            k = rng.randrange(d)
+            case.update(poly=Poly([1.0 if i == k else 0.0 for i in range(d)], [0.0] * d, [0.0] * d, 0.0).spec(), view=rng.choice(_VIEWS), k=k)
+        got, pl = _cd_array_call(case)
+        ctx.stats.case('oracle:counts:cd-array', (tuple(lead), d, repr(case['pts'][:3])), sample={'op': 'cd-array', 'leading_shape': list(lead), 'dim': d})
+        # the exact central difference is the same for equal points: evaluate the 3 * 97 distinct ones
+        uniq = {}
+        se = Fraction('1e-5') if case['shift'] is None else case['shift']
+        want = [v for r in case['pts'] for v in uniq.setdefault(tuple(r), pl.exact_cd(r, se))]
+        why = _cd_array_check(case, got, pl, want_flat=want)
+        if why is not None:
+            ctx.violate(f'central_difference:array{len(lead) + 1}d', f'central_difference(f, X, shift={case["shift"]}) on X ({case["container"]}) of shape '
+                        f'{tuple(lead) + (d,)} ({npts} points at once) for ' + (f'f(v) = v_{case["k"]} returning a view ({case["view"]})' if case.get('view') else f'the cubic {case["poly"]}')
+                        + f': {why}', dict(case, op='counts', pts=None, regenerate='points base[i % 97] + (i // 97) % 3', base=base))
+        nrows = n if n <= 8193 else 8193
+        dim = rng.choice([1, 2, 3])
+        mats = [[[cm.dyadic(rng, -2, 2, 2) for _ in range(dim)] for _ in range(dim)] for _ in range(7)]
+        ys = [[cm.dyadic(rng, -4, 4, 2) for _ in range(dim)] for _ in range(11)]
+        icase = {'op': 'integ-array', 'As': [mats[i % 7] for i in range(nrows)], 'Y': [ys[i % 11] for i in range(nrows)], 'h': rng.choice([0.5, 0.125, 0.1]),
+                 'mode': rng.choice(['plain', 'kw-mats', 'kw-both']), 'gain': 1.0, 'exp': 0, 'vector': False, 'container': rng.choice(['array', 'strided', 'list']),
+                 'h_as': None, 'rate_returns': rng.choice(['fresh', 'buffer', 'readonly'])}
+        if icase['mode'] == 'kw-both':
+            icase['gain'] = 0.5
+        for name in ('euler', 'rungekutta'):
+            got, untouched = _integ_array_call(icase, name)
+            ctx.stats.case('oracle:counts:' + name, (nrows, dim, repr(mats), repr(ys)))
+            memo = {}
+            deg = 1 if name == 'euler' else 4
+            g_ = Fraction(icase['gain'])
+            want = [memo.setdefault((i % 7, i % 11), _taylor([[g_ * Fraction(v) for v in r] for r in mats[i % 7]], ys[i % 11], icase['h'], deg)) for i in range(nrows)]
+            why = _integ_array_check(icase, name, got, want)
+            if why is None and not untouched:
+                why = 'the coordinate array handed in was overwritten'
+            if why is not None:
+                ctx.violate(f'{name}:array', f'{_describe_integ_array(icase, name)}: {why}',
+                            dict(icase, op='counts', As=None, Y=None, integrator=name, regenerate='row i: A = mats[i % 7], y = ys[i % 11]', mats=mats, ys=ys, nrows=nrows))
 
 
 def _search_paths(ctx, rng, broken):
@@ -2864,8 +3120,14 @@ def _search_relax(ctx, rng):
         t = np.linspace(0, 1, nimg)
         coord = np.outer(1 - t, [-0.8, 0.25]) + np.outer(t, [1.15, -0.2])
         coord[:, 1] += bend * np.sin(np.pi * t)
-        for integ, kw in variants[: (3 if it < 2 or ctx.thorough else 1)]:
-            _relax_case(ctx, k, c, a, coord, integ, kw, {'images': nimg, 'bend': bend})
+        for vi, (integ, kw) in enumerate(variants[: (3 if it < 2 or ctx.thorough else 1)]):
+            ex = {'images': nimg, 'bend': bend}
+            if it % 3 == 1 or (it % 3 == 2 and vi == 0):
+                # the same relaxation driven from outside through step(), the climbing image named by a NEGATIVE index (or, one
+                # time in six, by the positive one)
+                ex['by_steps'] = rng.choice(_HAND_FORMS)
+                ex['coord'] = coord.tolist()
+            _relax_case(ctx, k, c, a, coord, integ, kw, ex)
     for it in range(ctx.n(3, 12)):
         k = rng.choice([1.5, 2.0, 3.0])
         nimg = rng.choice([4, 6, 6, 8, 10, 12])
@@ -2876,6 +3138,46 @@ def _search_relax(ctx, rng):
         coord = np.array([[-x, y] for x, y in reversed(half)] + half)
         integ, kw = variants[it % 3]
         _relax_case(ctx, k, 0.0, 0.0, coord, integ, kw, {'images': nimg, 'bend': bend, 'symmetric': True, 'coord': coord.tolist()})
+
+
+_HAND_FORMS = ['neg-int', 'neg-list', 'neg-npint', 'neg-array', 'neg-tuple', 'pos-int']
+
+
+def _hand_index(form, top, n):
+    """the climbing image `top` of `n` images in the form handed to step(climbindex=): negative forms count from the end."""
+    np = _np()
+    if isinstance(top, str):
+        i = f'{top} - {n}' if form.startswith('neg') else top
+        return {'int': i, 'list': f'[{i}]', 'npint': f'np.int64({i})', 'array': f'np.array([{i}])', 'tuple': f'({i},)'}[form.split('-')[1]]
+    i = top - n if form.startswith('neg') else top
+    return {'int': i, 'list': [i], 'npint': np.int64(i), 'array': np.array([i]), 'tuple': (i,)}[form.split('-')[1]]
+
+
+def _relax_by_hand(path, kw, form):
+    """what relax(relaxsteps, climbsteps) documents, driven from outside through step(): relaxation steps until the
+    displacement measure is below the default tolerance, the first interior energy maximum named as climbing image (by a
+    negative or a positive index), climbing steps with the same stopping rule."""
+    np = _np()
+    h, tol = path.default_timestep, path.default_tolerance
+    cur = path
+    for _ in range(kw.get('relaxsteps', 0)):
+        new = cur.step(timestep=h)
+        d = np.linalg.norm(new.coord - cur.coord, axis=-1).max() / h
+        cur = new
+        if d < tol:
+            break
+    E = np.asarray(cur.energy())
+    tops = [i for i in range(1, len(E) - 1) if E[i] > E[i - 1] and E[i] >= E[i + 1]]
+    if not tops:
+        return cur
+    ci = _hand_index(form, tops[0], len(E))
+    for _ in range(kw.get('climbsteps', 0)):
+        new = cur.step(timestep=h, climbindex=ci)
+        d = np.linalg.norm(new.coord - cur.coord, axis=-1).max() / h
+        cur = new
+        if d < tol:
+            break
+    return cur
 
 
 def _relax_case(ctx, k, c, a, coord, integ, kw, extra):
@@ -2911,7 +3213,11 @@ def _relax_case(ctx, k, c, a, coord, integ, kw, extra):
         return
     try:
         g_start, f_start = np.array(path.grad_energy()), np.array(path.force)   # reads before the relaxation
-        new = path.relax(verbose=False, **kw)
+        if extra.get('by_steps'):
+            new = _relax_by_hand(path, kw, extra['by_steps'])
+            what += f'; relaxation driven by path.step(timestep), then path.step(timestep, climbindex={_hand_index(extra["by_steps"], "top", "N")!s})'
+        else:
+            new = path.relax(verbose=False, **kw)
     except Exception as e:  # noqa
         ctx.violate('relax:raises', f'relax raised {type(e).__name__}: {e} ({what})', info)
         return
@@ -2965,7 +3271,17 @@ def replay(ctx, payload):
     if op in ('euler', 'rungekutta'):
         f, deg = (euler, 1) if op == 'euler' else (rungekutta, 4)
         An, yn = np.array(r['A']), np.array(r['y'])
-        impl = f(lambda c: An @ c, yn, r['h'])
+        if r.get('rate') == 'buffer':
+            buf = np.empty(len(yn))
+
+            def rate(c):
+                np.dot(An, c, out=buf)
+                return buf
+            print('replay with the rate function np.dot(A, y, out=buf); return buf')
+        else:
+            def rate(c):
+                return An @ c
+        impl = np.array(f(rate, yn, r['h']), dtype=float)
         want = _taylor(r['A'], r['y'], r['h'], deg)
         print('replay', op, 'impl', list(map(float, impl)), 'expected', [float(w) for w in want])
         if not cm.allclose(impl, want, rtol=1e-9, atol=1e-11 * abs(r.get('scale', 1.0))):
@@ -3002,7 +3318,7 @@ def replay(ctx, payload):
     elif op == 'relax' and 'coord' in r:
         kw = {k: r[k] for k in ('relaxsteps', 'climbsteps') if k in r}
         _relax_case(ctx, r['k'], r['c'], r['a'], np.array(r['coord']), r['options'], kw,
-                    {k: r[k] for k in ('images', 'bend', 'symmetric', 'coord') if k in r})
+                    {k: r[k] for k in ('images', 'bend', 'symmetric', 'coord', 'by_steps') if k in r})
         print('replay relaxation of the stored string ->', '; '.join(f.what[:300] for f in ctx.violations) or 'ends in the minima, top image at the saddle')
     elif op == 'integ-array':
         names = [r['integrator']] if 'integrator' in r else ['euler', 'rungekutta']
@@ -3045,7 +3361,9 @@ MANIFEST = {
             'the unit of length. A whole step (integration + any re-spacing that keeps first, last and climbing rows) that '
             'returns its string has those rows at critical points; the stopping test of relax bounds the gradient at the kept '
             'images by the tolerance (Euler); a phase that stops early stopped on that test. Relaxation to the saddle is '
-            'partial (explored on the implementation, mirror-symmetric strings included).',
+            'partial (explored on the implementation, mirror-symmetric strings included). Climbing images named from the end are '
+            'resolved by the model (climbImages?, pyIndex theorems); the textbook form of the Runge-Kutta step is proved to be the same '
+            'function, so rate functions that return views / one reused buffer are decided on the implementation against the exact oracle.',
     'note': 'Trusted: Lean kernel + propext/Classical.choice/Quot.sound; the AST translator (harness/translate.py, '
             'props/c20.py); numpy matmul/einsum/norm, scipy CubicSpline at its knots; float rounding bounded by derived '
             'first-order bounds in the correspondence. Convergence of relax() and the re-spaced interior images of a '
